@@ -28,6 +28,7 @@ type caseDrawer struct {
 	refBudget int
 	empty    int
 	large    int // large grammars handed out so far
+	clash    int // grammars with a rule named ERROR handed out so far
 }
 
 func newDrawer() *caseDrawer { return &caseDrawer{seen: map[[32]byte]bool{}} }
@@ -38,6 +39,7 @@ type drawOpts struct {
 	noStarF   bool
 	minSent   int // require at least this many sentences up to length 8
 	large     bool // now and then a grammar with several hundred tokens, productions and states
+	clash     bool // now and then a grammar with a rule called ERROR next to @error under the same sugar
 }
 
 func (d *caseDrawer) draw(r *rng.R, o drawOpts) *PCase {
@@ -54,7 +56,20 @@ func (d *caseDrawer) draw(r *rng.R, o drawOpts) *PCase {
 			}
 			d.mu.Unlock()
 		}
+		if o.clash {
+			// a rule called ERROR next to @error under the same sugar: the fifth
+			// grammar of a run, and one in fifty after that
+			d.mu.Lock()
+			if (d.clash == 0 && d.drawn >= 4) || r.Chance(1, 50) {
+				sel = -2
+				d.clash++
+			}
+			d.mu.Unlock()
+		}
 		switch sel {
+		case -2:
+			g = specgen.ErrorNameClashGrammar(r)
+			origin = "rule-named-ERROR-next-to-@error-under-the-same-sugar"
 		case -1:
 			g = specgen.LargeGrammar(r)
 			origin = "large"
@@ -76,12 +91,14 @@ func (d *caseDrawer) draw(r *rng.R, o drawOpts) *PCase {
 		if o.noStarF {
 			stripStarF(g)
 		}
-		if r.Intn(100) < o.errPct {
-			specgen.AddErrors(r, g)
-			origin += "+error"
-		}
-		if r.Chance(1, 3) {
-			specgen.RenameSymbols(r, g)
+		if sel != -2 {
+			if r.Intn(100) < o.errPct {
+				specgen.AddErrors(r, g)
+				origin += "+error"
+			}
+			if r.Chance(1, 3) {
+				specgen.RenameSymbols(r, g)
+			}
 		}
 		d.mu.Lock()
 		d.drawn++
@@ -159,7 +176,7 @@ func checkC01(c *Ctx) error {
 	nCLI := c.N(1, 10)
 	per := 32
 	d := newDrawer()
-	o := drawOpts{errPct: 15, bounds: 20, large: true}
+	o := drawOpts{errPct: 15, bounds: 20, large: true, clash: true}
 	fastOK := true
 	var mu sync.Mutex
 	doBatch := func(bi int) {
